@@ -178,17 +178,15 @@ theorem readUntilImageData_setSC (cfg : Cfg) (t : TCfg) (r : R) (s : Nat) (c : O
       | none => rfl
       | some i =>
         simp only
-        cases bppFromUsize (bytesPerPixel i.color i.depth) with
-        | none => rfl
-        | some bpp =>
+        have := reserveBytes_setSC r' (outLineSize t i r'.flags (Sub.new i).width) s c
+        show (match reserveBytes (R.setSC r' s c) (outLineSize t i r'.flags (Sub.new i).width) with
+          | .error e => _ | .ok r3 => _) = _
+        rw [this]
+        cases reserveBytes r' (outLineSize t i r'.flags (Sub.new i).width) with
+        | error e => rfl
+        | ok r3 =>
           simp only
-          have := reserveBytes_setSC { r' with sub := Sub.new i, bpp := bpp, ub := UB.new }
-            (outLineSize t i r'.flags (Sub.new i).width) s c
-          show (match reserveBytes (R.setSC { r' with sub := Sub.new i, bpp := bpp, ub := UB.new } s c)
-            (outLineSize t i r'.flags (Sub.new i).width) with | .error e => _ | .ok r3 => _) = _
-          rw [this]
-          cases reserveBytes { r' with sub := Sub.new i, bpp := bpp, ub := UB.new }
-            (outLineSize t i r'.flags (Sub.new i).width) <;> rfl
+          cases bppFromUsize (bytesPerPixel i.color i.depth) <;> rfl
 
 theorem nextFrameInfo_setSC (cfg : Cfg) (t : TCfg) (r : R) (s : Nat) (c : Option Info) :
     nextFrameInfo cfg t (r.setSC s c) = mapFst (fun r => r.setSC s c) (nextFrameInfo cfg t r) := by
